@@ -4976,10 +4976,10 @@ _generated_shards = [_c01_shard(k) for k in range(_C01_SHARDS)]
 
 @contract("dask_array/_collection.py::Array.compute", spec="generated-programs-known-findings", props=["C01", "C09"])
 class generated_programs_known(_generated_programs_base):
-    """the generated programs that are recorded known findings, kept by seed: F53 (seed 109919, depth 6: take . any . repeat
-    . index[::-2, 1] . max raises 'Dimension 0 has 2 blocks, adjust_chunks specified with 1 blocks' with array.optimize-graph
-    False and computes NumPy's value with it on) and a second witness of F52 (seed 109436, depth 6: the ravel of a take
-    raises 'cannot reshape array of size 2 into shape (3,)')"""
+    """generated programs kept by seed: 109919 (depth 6: take . any . repeat . index[::-2, 1] . max, which raised 'Dimension 0
+    has 2 blocks, adjust_chunks specified with 1 blocks' with array.optimize-graph off until the repair a9a805c -- F53, kept as
+    a regression program) and a second witness of the known finding F52 (seed 109436, depth 6: the ravel of a take raises
+    'cannot reshape array of size 2 into shape (3,)')"""
     scope = "seeds 109919 and 109436 of the program generator, depth 6"
 
     def domain(tier, rng):
